@@ -64,7 +64,13 @@ AgainAt(t, s, sh, pl) ==
    \cup { [kind |-> "again-mismatch", peel |-> pl, a |-> Replace(t, s.pos, Hole(1, sh)), b |-> t, a2 |-> Replace(t, s.pos, Hole(1, sh)), b2 |-> Replace(t, s.pos, k)] : k \in {TInt, TType} \ {s.sub} }
 Again(t) == UNION { UNION { AgainAt(t, s, sh, 0) \cup (IF CanPeel(t, s) THEN AgainAt(t, s, sh, 2) ELSE {}) : sh \in 0..s.d }
                     : s \in { x \in Subterms(t, <<>>, 0) : x.pos # <<>> } }
-Emit3 == (Done /\ size >= 2 /\ ~HasHole(T) /\ WellTyped(T)) => \A p \in Again(T) : PrintT(<<"PAIR", ToJson(p)>>)
+\* two calls, the INNER hole first: the first call solves g (strictly inside the region of h, possibly below binders of that region);
+\* the second call solves h against the term that contains the solved g -- the solution of h is that region, carried out of the
+\* binders between h's home and its occurrence, WITH the solved hole inside it (a solved hole is lowered below a binder)
+TwoStepIn(t) == UNION { { [kind |-> "twostep", peel |-> 0, a |-> Replace(t, s2.pos, Hole(2, p[2])), b |-> t, a2 |-> Replace(t, s1.pos, Hole(1, p[1])), b2 |-> Replace(t, s2.pos, Hole(2, p[2]))]
+                          : p \in (0..s1.d) \X (0..s2.d) }
+                        : <<s1, s2>> \in { <<x, y>> \in Subterms(t, <<>>, 0) \X Subterms(t, <<>>, 0) : x.pos # <<>> /\ IsPrefixPos(x.pos, y.pos) /\ x.pos # y.pos } }
+Emit3 == (Done /\ size >= 2 /\ ~HasHole(T) /\ WellTyped(T)) => \A p \in Again(T) \cup TwoStepIn(T) : PrintT(<<"PAIR", ToJson(p)>>)
 Reducts(t) == { P("reduct", t, StepN(t, k)) : k \in 0..3 }
 Pairs(t) == SingleOK(t) \cup Double(t) \cup Cross(t) \cup Occurs(t) \cup Nested(t) \cup Cycle2(t) \cup Mismatch(t) \cup Unrelated(t) \cup Reducts(t)
 Emit2 == (Done /\ size >= 2 /\ ~HasHole(T) /\ WellTyped(T)) => \A p \in TwoStep(T) : PrintT(<<"PAIR", ToJson(p)>>)
